@@ -75,4 +75,10 @@ def r_shared_c01_r12(run, tree):
     iof.check_reader_initialize(run, tree)
 
 
-RULES = [r_shared_c01_r12, r1, r2, r3, r4, r5, r6, r7, r8, r9, r11]
+def r13(run, tree):
+    run.rule("C01.R13", "the unit table a dataset answers from is its own: UnitsLibrary folded over two instances with different contents "
+             "(exact keys, wildcard keys, default, assignment after lookup)", "D7 history fold of units/library.py::UnitsLibrary", "", floor=1)
+    iof.check_units_library(run, tree)
+
+
+RULES = [r_shared_c01_r12, r1, r2, r3, r4, r5, r6, r7, r8, r9, r11, r13]
